@@ -61,7 +61,9 @@ def make_trace(path, n, chains, entries, seed, clustered=False):
         results[c] = {"data": data, "samples": ["S1", "S2"], "trace": tr, "chain_num": c}
     cf = None
     if clustered:
-        cf = path + ".clusters.tsv"
+        indir = os.path.join(os.path.dirname(path), "inputs")
+        os.makedirs(indir, exist_ok=True)
+        cf = os.path.join(indir, os.path.basename(path) + ".cluster_input.tsv")
         with open(cf, "w") as fh:
             fh.write("mutation_id\tcluster_id\n" + "".join("mut%d_a\t%d\nmut%d_b\t%d\n" % (i, 10 + i, i, 10 + i) for i in range(n)))
     create_main_run_output(cf, path, results)
@@ -96,6 +98,56 @@ def run_commands(trace_path, outdir):
                 raise
             res[cmd] = ("error", type(ex).__name__)
     return res
+
+
+def companion_files(path):
+    """Everything the writer created beside the trace file itself (same directory, name starting with the trace file's
+    name), in the order it was written.  The unchanged writer creates none."""
+    d, base = os.path.dirname(path), os.path.basename(path)
+    out = [f for f in os.listdir(d) if f != base and f.startswith(base) and os.path.isfile(os.path.join(d, f))]
+    return sorted(out, key=lambda f: (os.stat(os.path.join(d, f)).st_mtime_ns, f))
+
+
+def sweep_companions(ck, label, path, workdir):
+    """The run output is every file the writer produced: a crash can also hit a file written after (or before) the trace
+    itself.  Crash points: files written earlier complete, the current file cut at any byte, later files absent."""
+    comps = companion_files(path)
+    if not comps:
+        return
+    d0 = os.path.dirname(path)
+    base = os.path.basename(path)
+    order = sorted([base] + comps, key=lambda f: (os.stat(os.path.join(d0, f)).st_mtime_ns, f))
+    blobs = {f: open(os.path.join(d0, f), "rb").read() for f in order}
+    full = run_commands(path, env.scratch(os.path.join("c20_out", "fullc_" + label)))
+    tasks = []
+    for i, f in enumerate(order):
+        if f == base:
+            continue        # prefixes of the trace file itself are the main sweep's business (with later files absent: below)
+        for k in range(len(blobs[f])):
+            tasks.append((i, k))
+    tasks += [(order.index(base), len(blobs[base]))] if order.index(base) < len(order) - 1 else []
+
+    def task(arg):
+        i, k = arg
+        d = os.path.join(workdir, "c%d" % os.getpid())
+        shutil.rmtree(d, ignore_errors=True)
+        os.makedirs(d)
+        for j, f in enumerate(order):
+            if j < i:
+                open(os.path.join(d, f), "wb").write(blobs[f])
+            elif j == i:
+                open(os.path.join(d, f), "wb").write(blobs[f][:k])
+        return arg, run_commands(os.path.join(d, base), d)
+
+    for (i, k), res in kernels.parallel_map(task, tasks, chunksize=max(1, len(tasks) // 128)):
+        ck.evaluations += 3
+        for cmd, (st, dig) in res.items():
+            if st == "ok" and dig != full[cmd][1]:
+                ck.violation("C20|partial_result|%s|companion_file" % cmd, "the writer produces %d files (%s); with %s cut after %d of %d bytes (earlier files complete, later ones absent) %s produced results that differ from the complete output's" % (
+                    len(order), ", ".join(order), order[i], k, len(blobs[order[i]]), cmd), {"trace": label, "files": order, "cut_file": order[i], "prefix": k, "command": cmd})
+        ck.nontrivial("%s:companion:%d:%d" % (label, i, k))
+    ck.traces_validated += len(tasks)
+    ck.extra.setdefault("companion_files", {})[label] = order
 
 
 def sweep(ck, label, path, prefixes, workdir, corrupt=None):
@@ -157,6 +209,7 @@ def real_crash(ck, workdir, seed):
     limits = sorted({64, 700, size_new // 3, size_new // 2, size_new - 40, size_new - 3})
     for L in limits:
         make_trace(path, 2, 1, 2, seed + 6)            # the older, complete run
+        run_commands(path, d)                          # ... which this (long-lived) process has already summarised once
         pid = os.fork()
         if pid == 0:
             try:
@@ -198,6 +251,7 @@ def run(corrupt=None):
         p = os.path.join(workdir, label + ".pkl.gz")
         size = make_trace(p, n, chains, entries, ck.seed + len(label), clustered)
         sweep(ck, label, p, range(0, size), workdir, corrupt)
+        sweep_companions(ck, label, p, workdir)
     # a long trace (> 1000 entries per chain): dense sample of prefixes incl. every byte of the last 300
     p = os.path.join(workdir, "long.pkl.gz")
     size = make_trace(p, 1, 2, 1100, ck.seed + 99)
